@@ -28,7 +28,13 @@ func init() {
 		detrestPureSuite(c)
 	}
 	// development entry: this package's suites alone (`gzxh -prop detrest`)
-	suites["detrest"] = func(c *Ctx) { detrestPureSuite(c) }
+	prevDev := suites["detrest"]
+	suites["detrest"] = func(c *Ctx) {
+		if prevDev != nil {
+			prevDev(c)
+		}
+		detrestPureSuite(c)
+	}
 }
 
 // ---------- a Binarizer that hands out a given bit matrix ----------
